@@ -184,7 +184,7 @@ Section IntegratorProofs.
   Proof.
     intros HP. unfold add_point.
     set (s1 := set_xmap s _).
-    assert (HP1 : PInv H s1) by (apply (PInv_same H s); [reflexivity|exact HP]).
+    assert (HP1 : PInv H s1) by exact HP.
     destruct (memF x (data s1)) eqn:Ed; [apply PInv_tell; exact HP1|].
     destruct (memF x (pending s1)) eqn:Ep; [exact HP1|].
     apply memX_false in Ed. apply memX_false in Ep.
@@ -1264,6 +1264,293 @@ Section IntegratorProofs.
     Qed.
 
   End Partition.
+
+  (* ================================================================== *)
+  (** * x_mapping only ever contains rule abscissae of existing intervals, so a
+        value for an abscissa that belongs to no interval is rejected *)
+
+  Section Foreign.
+
+    (* [x] is an abscissa of the rule of some depth <= the current depth of some interval *)
+    Definition belongs s x : Prop :=
+      exists i d, i < length (ivs s) /\ d <= depth (getF s i) /\
+                  In x (points (a (getF s i)) (b (getF s i)) d).
+
+    Definition XL s : Prop :=
+      (forall x, xmap_mem eqb x (xmap s) = true -> belongs s x) /\
+      (forall i, In i (live s) \/ In i (prio s) -> i < length (ivs s)).
+
+    (* the arena only grows: old intervals keep a, b; depths only increase *)
+    Definition FM s s' : Prop :=
+      length (ivs s) <= length (ivs s') /\
+      forall j, j < length (ivs s) ->
+        a (getF s' j) = a (getF s j) /\ b (getF s' j) = b (getF s j) /\ depth (getF s j) <= depth (getF s' j).
+
+    Lemma FC_FM s s' : FC s s' -> FM s s'.
+    Proof.
+      intros [Hl HF]. split; [lia|]. intros j _. destruct (HF j) as (-> & -> & -> & _). auto.
+    Qed.
+
+    Lemma belongs_FM s s' x : FM s s' -> belongs s x -> belongs s' x.
+    Proof.
+      intros [Hl HF] (i & d & Hi & Hd & Hin). destruct (HF i Hi) as (Ea & Eb & Ed).
+      exists i, d. rewrite Ea, Eb. repeat split; auto; lia.
+    Qed.
+
+    Lemma XL_FM s s' :
+      FM s s' -> xmap s' = xmap s -> (forall i, In i (live s') \/ In i (prio s') -> In i (live s) \/ In i (prio s)) ->
+      XL s -> XL s'.
+    Proof.
+      intros HF Ex Hlp [H1 H2]. split.
+      - intros x Hx. rewrite Ex in Hx. eapply belongs_FM; eauto.
+      - intros i Hi. apply Hlp in Hi. apply H2 in Hi. destruct HF. lia.
+    Qed.
+
+    Lemma xmap_of_pts s s' : pts s' = pts s -> xmap s' = xmap s.
+    Proof. unfold pts. intros E. inversion E. reflexivity. Qed.
+
+    (* live / prio only shrink or gain members of live in the tree-internal functions *)
+    Definition LPsub s s' : Prop :=
+      forall i, In i (live s') \/ In i (prio s') -> In i (live s) \/ In i (prio s).
+
+    Lemma LPsub_refl s : LPsub s s. Proof. intros i H; exact H. Qed.
+    Lemma LPsub_trans s1 s2 s3 : LPsub s1 s2 -> LPsub s2 s3 -> LPsub s1 s3.
+    Proof. intros A B i H. apply A, B, H. Qed.
+    Lemma LPsub_FR s s' : FR s s' -> LPsub s s'.
+    Proof. unfold LPsub. intros (-> & -> & _). auto. Qed.
+
+    Lemma LPsub_discard s i : LPsub s (discF s i).
+    Proof.
+      unfold discard_ival. intros k. destruct repaired; cbn [live prio set_live set_prio];
+        rewrite ?nat_remove_In; tauto.
+    Qed.
+
+    Lemma LPsub_propagate_removed fuel : forall s i, LPsub s (prF fuel s i).
+    Proof.
+      induction fuel as [|fuel IH]; intros s i; cbn [propagate_removed]; [apply LPsub_refl|].
+      apply (fold_left_inv (fun s' => LPsub s s')).
+      - intros s' c H. eapply LPsub_trans; [exact H|apply IH].
+      - eapply (@LPsub_trans _ (upd s i (fun iv => iv_set_removed iv true))); [|apply LPsub_discard]. intros k H; exact H.
+    Qed.
+
+    Lemma LPsub_queue_split s i : LPsub s (fst (qsF s i)).
+    Proof.
+      unfold queue_split. destruct repaired.
+      - destruct (nat_mem i (live s)) eqn:E; cbn [andb]; [|apply LPsub_refl].
+        destruct (negb _); [|apply LPsub_refl]. cbn [fst]. intros k. cbn [live prio set_prio In].
+        apply nat_mem_In in E. intros [H|[<-|H]]; auto.
+      - destruct (nat_mem i (live s)) eqn:E; [|apply LPsub_refl]. cbn [fst]. intros k. cbn [live prio set_prio In].
+        apply nat_mem_In in E. intros [H|[<-|H]]; auto.
+    Qed.
+
+    Lemma LPsub_complete_process s i d : LPsub s (fst (fst (cpF s i d))).
+    Proof. unfold LPsub. destruct (cp_frame s i d) as (-> & -> & _). auto. Qed.
+
+    Lemma LPsub_tell_depths i ds : forall s, LPsub s (fst (tdF s i ds)).
+    Proof.
+      induction ds as [|d ds IH]; intros s; cbn [tell_depths]; [apply LPsub_refl|].
+      destruct (refinement_complete _ _ _ _); [|apply IH].
+      pose proof (LPsub_complete_process s i d) as H1.
+      destruct (cpF s i d) as [[s1 e] [fs rm]]. cbn [fst] in H1.
+      destruct e; try exact H1.
+      eapply LPsub_trans; [exact H1|].
+      apply (bind_inv (fun s' => LPsub s1 s')).
+      - destruct rm; cbn [fst]; [apply LPsub_propagate_removed|].
+        destruct (_ && _); [apply LPsub_queue_split|apply LPsub_refl].
+      - intros s2 H2. eapply LPsub_trans; [exact H2|apply IH].
+    Qed.
+
+    Lemma LPsub_tell s x : LPsub s (fst (tellF s x)).
+    Proof.
+      unfold tell. destruct (negb _); [apply LPsub_refl|].
+      apply (foldM_inv (fun s' => LPsub s s')).
+      - intros s' i H. eapply LPsub_trans; [exact H|]. unfold tell_ival.
+        eapply (@LPsub_trans _ (upd s' i (fun iv => iv_set_known iv (addF x (known iv))))); [|apply LPsub_tell_depths]. intros k Hk; exact Hk.
+      - intros k Hk; exact Hk.
+    Qed.
+
+    Lemma xmap_tell s x : xmap (fst (tellF s x)) = xmap s.
+    Proof.
+      unfold tell. destruct (negb _); [reflexivity|].
+      apply (foldM_inv (fun s' => xmap s' = xmap s)); [|reflexivity].
+      intros s' i H. rewrite (@xmap_of_pts _ _ (pts_tell_ival x s' i)). exact H.
+    Qed.
+
+    Lemma XL_tell s x : XL s -> XL (fst (tellF s x)).
+    Proof. apply XL_FM; [apply FC_FM, FC_tell|apply xmap_tell|apply LPsub_tell]. Qed.
+
+    Lemma xmap_mem_add rd x i m y :
+      xmap_mem eqb y (xmap_add eqb rd x i m) = true -> y = x \/ xmap_mem eqb y m = true.
+    Proof.
+      unfold xmap_add. destruct (xmap_mem eqb x m) eqn:E.
+      - intros H. right. unfold xmap_mem in *. rewrite existsb_exists in *.
+        destruct H as [p [Hp He]]. apply in_map_iff in Hp as [q [<- Hq]].
+        exists q. split; [exact Hq|]. destruct (eqb x (fst q)); exact He.
+      - unfold xmap_mem. rewrite existsb_app. cbn [existsb fst]. rewrite orb_false_r.
+        intros H. apply orb_true_iff in H as [H|H]; [right; exact H|left].
+        apply eqb_spec in H. exact H.
+    Qed.
+
+    Lemma XL_add_point i s x :
+      XL s -> i < length (ivs s) ->
+      In x (points (a (getF s i)) (b (getF s i)) (depth (getF s i))) ->
+      XL (fst (apF i s x)).
+    Proof.
+      intros [H1 H2] Hi Hin. unfold add_point. set (s1 := set_xmap s _).
+      assert (HX1 : XL s1).
+      { split; [|exact H2]. intros y Hy. unfold s1 in Hy. cbn [xmap set_xmap] in Hy.
+        apply xmap_mem_add in Hy as [->|Hy]; [|exact (H1 y Hy)].
+        exists i, (depth (getF s i)). repeat split; auto. }
+      destruct (memF x (data s1)); [apply XL_tell; exact HX1|].
+      destruct (memF x (pending s1)); exact HX1.
+    Qed.
+
+    Lemma XL_add_ival s i : XL s -> i < length (ivs s) -> XL (fst (aiF s i)).
+    Proof.
+      intros HX Hi. unfold add_ival.
+      assert (G : forall l s', XL s' -> FC s s' ->
+                  (forall x, In x l -> In x (points (a (getF s i)) (b (getF s i)) (depth (getF s i)))) ->
+                  XL (fst (foldM (apF i) l s')) /\ FC s (fst (foldM (apF i) l s'))).
+      { induction l as [|x l IH]; intros s' HX' HF Hl; cbn [foldM]; [split; assumption|].
+        assert (HX2 : XL (fst (apF i s' x))).
+        { destruct HF as [El HF]. destruct (HF i) as (Ea & Eb & Ed & _).
+          apply XL_add_point; [exact HX'|lia|]. rewrite Ea, Eb, Ed. apply Hl. left; reflexivity. }
+        assert (HF2 : FC s (fst (apF i s' x))) by (eapply FC_trans; [exact HF|apply FC_add_point]).
+        destruct (apF i s' x) as [s2 e]. cbn [fst] in *.
+        destruct e; cbn [bind]; try (split; assumption).
+        apply IH; auto. intros y Hy. apply Hl. right; exact Hy. }
+      destruct (G (points (a (getF s i)) (b (getF s i)) (depth (getF s i))) s HX (FC_refl s) (fun x H => H)) as [G1 G2].
+      destruct (foldM _ _ s) as [s1 e]. cbn [fst] in *.
+      destruct e; cbn [bind fst]; try exact G1.
+      destruct G1 as [A1 A2]. split; [exact A1|]. intros k. cbn [live prio set_live].
+      change (length (ivs (set_live s1 (nat_add i (live s1))))) with (length (ivs s1)).
+      rewrite nat_add_In. intros [[->|H]|H]; [destruct G2 as [G2 _]; lia|apply A2; auto|apply A2; auto].
+    Qed.
+
+    Lemma FM_split s i :
+      FM s (fst (splitF s i)) /\ snd (splitF s i) = [length (ivs s); S (length (ivs s))] /\
+      length (ivs (fst (splitF s i))) = S (S (length (ivs s))) /\
+      xmap (fst (splitF s i)) = xmap s /\ live (fst (splitF s i)) = live s /\ prio (fst (splitF s i)) = prio s.
+    Proof.
+      unfold split. cbn [fst snd]. set (s1 := upd s i _).
+      assert (Hlen : length (ivs s1) = length (ivs s)) by apply length_upd.
+      refine (conj _ (conj eq_refl (conj _ (conj eq_refl (conj eq_refl eq_refl))))).
+      - split; [cbn [ivs set_ivs]; rewrite app_length, Hlen; lia|].
+        intros j Hj. rewrite get_app_old by lia. unfold s1. rewrite get_upd.
+        destruct (_ && _); cbn [a b depth iv_set_children]; auto.
+      - cbn [ivs set_ivs]. rewrite app_length, Hlen. cbn. lia.
+    Qed.
+
+    Lemma XL_fill_stack s c : XL s -> XL (fst (fsF s c)).
+    Proof.
+      intros HX. unfold fill_stack.
+      set (s0 := set_orc s _).
+      assert (HX0 : XL s0) by exact HX.
+      destruct (match prio s0 with [] => _ | _ => _ end) as [[[i force] s1]|] eqn:Esel; [|exact HX0].
+      assert (Hhd : forall k rest, prio s0 = k :: rest -> XL (set_prio s0 rest) /\ k < length (ivs s0)).
+      { intros k rest Ep. destruct HX0 as [A1 A2]. split.
+        - split; [exact A1|]. intros j. cbn [live prio set_prio]. intros [H|H]; apply A2; [left; exact H|right].
+          rewrite Ep. right; exact H.
+        - apply A2. right. rewrite Ep. left; reflexivity. }
+      assert (Hpk : nat_mem (c_pick c) (live s0) = true -> c_pick c < length (ivs s0)).
+      { intros Em. destruct HX0 as [_ A2]. apply A2. left. apply nat_mem_In. exact Em. }
+      assert (H1 : XL s1 /\ i < length (ivs s1)).
+      { destruct (prio s0) as [|k rest] eqn:Ep.
+        - destruct (nat_mem (c_pick c) (live s0)) eqn:Em; inversion Esel; subst i s1.
+          split; [exact HX0|]. apply Hpk. reflexivity.
+        - inversion Esel; subst i s1. apply (Hhd k rest eq_refl). }
+      destruct H1 as [HX1 Hi].
+      destruct (negb _); [exact HX1|].
+      apply bind_inv; [|intros s4 H4; destruct (is_nil _); exact H4].
+      apply bind_inv.
+      2:{ intros s4 H4. eapply XL_FM; [apply FC_FM, FC_max_ivals_rule| | |exact H4].
+          - apply xmap_of_pts, pts_max_ivals_rule.
+          - unfold max_ivals_rule. destruct (_ <? _); destruct (c_maxrm c) as [j|]; try (intros k Hk; exact Hk).
+            destruct (nat_mem j (live s4)); [|intros k Hk; exact Hk]. cbn [fst]. pose proof (LPsub_discard s4 j) as HD.
+            destruct repaired; [exact HD|]. intros k. cbn [live prio set_live]. rewrite nat_remove_In. tauto. }
+      assert (HRL : forall s2, XL s2 -> XL (fst (remove_live s2 i)) /\ length (ivs (fst (remove_live s2 i))) = length (ivs s2)).
+      { intros s2 H2. unfold remove_live. destruct (nat_mem i (live s2)); cbn [fst]; split; auto.
+        destruct H2 as [A1 A2]. split; [exact A1|]. intros k. cbn [live prio set_live]. rewrite nat_remove_In.
+        intros [[H _]|H]; apply A2; auto. }
+      destruct (c_minsep c); [apply HRL; exact HX1|].
+      destruct (_ || _).
+      - destruct (HRL s1 HX1) as [HX2 Hl2]. destruct (remove_live s1 i) as [s2 e2]. cbn [fst] in *.
+        destruct e2; cbn [bind]; try exact HX2.
+        destruct (FM_split s2 i) as (F1 & F2 & F3 & F4 & F5 & F6).
+        destruct (splitF s2 i) as [s3 kids]. cbn [fst snd] in *. subst kids.
+        assert (HX3 : XL s3).
+        { eapply XL_FM; [exact F1|exact F4| |exact HX2]. unfold LPsub. rewrite F5, F6. auto. }
+        cbn [foldM].
+        assert (HA : XL (fst (aiF s3 (length (ivs s2))))) by (apply XL_add_ival; [exact HX3|lia]).
+        destruct (FC_add_ival s3 (length (ivs s2))) as [El _].
+        destruct (aiF s3 (length (ivs s2))) as [s4 e4]. cbn [fst] in *.
+        destruct e4; cbn [bind]; try exact HA.
+        apply bind_inv; [|intros; assumption].
+        apply XL_add_ival; [exact HA|lia].
+      - apply XL_add_ival.
+        + eapply XL_FM; [| | |exact HX1]; try reflexivity.
+          * split; [rewrite length_upd; lia|]. intros j Hj. rewrite get_upd.
+            destruct (_ && _); cbn [a b depth iv_set_depth]; auto.
+          * intros k Hk; exact Hk.
+        + rewrite length_upd. exact Hi.
+    Qed.
+
+    Lemma XL_same s s' : ivs s' = ivs s -> xmap s' = xmap s -> live s' = live s -> prio s' = prio s -> XL s -> XL s'.
+    Proof.
+      intros E1 E2 E3 E4. apply XL_FM; [apply FC_FM, FC_same_ivs; exact E1|exact E2|].
+      unfold LPsub. rewrite E3, E4. auto.
+    Qed.
+
+    Lemma XL_ask_loop cs : forall s nleft acc, XL s -> XL (fst (fst (alF s nleft cs acc))).
+    Proof.
+      induction cs as [|c cs IH]; intros s nleft acc HX; cbn [ask_loop].
+      - destruct (nleft =? 0); [exact HX|]. destruct (_ && _); exact HX.
+      - destruct (nleft =? 0); [exact HX|]. destruct (_ && _); [exact HX|].
+        pose proof (XL_fill_stack c HX) as H1.
+        destruct (fsF s c) as [s1 e]. cbn [fst] in H1.
+        destruct e; try exact H1. unfold pop_from_stack. apply IH.
+        eapply XL_same; [| | | |exact H1]; reflexivity.
+    Qed.
+
+    Lemma XL_step s o : XL s -> XL (fst (stepF s o)).
+    Proof.
+      intros HX. unfold step. destruct (halted s); [exact HX|].
+      destruct o as [n cs|x vs].
+      - unfold ask, pop_from_stack.
+        pose proof (@XL_ask_loop cs (set_stack s (skipn n (stack s))) (n - length (firstn n (stack s))) (firstn n (stack s))) as H1.
+        destruct (alF _ _ cs _) as [[s1 e] out]. cbn [fst] in H1.
+        assert (H2 : XL s1) by (apply H1; eapply XL_same; [| | | |exact HX]; reflexivity).
+        destruct e; cbn [fst]; (eapply XL_same; [| | | |exact H2]; reflexivity).
+      - assert (H2 : XL (fst (tellF (set_orc s vs) x))).
+        { apply XL_tell. eapply XL_same; [| | | |exact HX]; reflexivity. }
+        destruct (tellF (set_orc s vs) x) as [s1 e]. cbn [fst] in H2.
+        destruct e; cbn [fst]; try exact HX; try (eapply XL_same; [| | | |exact H2]; reflexivity).
+        destruct (is_nil _); cbn [fst]; (eapply XL_same; [| | | |exact H2]; reflexivity).
+    Qed.
+
+    Lemma XL_init lo hi maxiv : XL (initF lo hi maxiv).
+    Proof.
+      unfold init. apply XL_add_ival; [|cbn; lia].
+      split; [intros x H; discriminate|]. cbn. intros i [[]|[]].
+    Qed.
+
+    Lemma XL_run h : forall s, XL s -> XL (runF s h).
+    Proof.
+      induction h as [|o h IH]; intros s HX; cbn [run fold_left]; [exact HX|].
+      apply IH, XL_step, HX.
+    Qed.
+
+    Theorem rejects_foreign_geometric lo hi maxiv h x vs :
+      let s := runF (initF lo hi maxiv) h in
+      halted s = false -> ~ belongs s x ->
+      stepF s (Tell x vs) = (s, ([], EValue)).
+    Proof.
+      intros s Hh Hnb. apply rejects_foreign; [exact Hh|].
+      destruct (xmap_mem eqb x (xmap s)) eqn:E; [|reflexivity].
+      exfalso. apply Hnb. destruct (XL_run h (XL_init lo hi maxiv)) as [H1 _]. apply H1. exact E.
+    Qed.
+
+  End Foreign.
 
 End IntegratorProofs.
 
